@@ -136,6 +136,14 @@ fn check_acquired(t: &Target<'_>, write: bool, w: &str) {
 	held.sort_by_key(|h| h.0);
 	let mut want: Vec<(u32, Mode)> = t.leaves.iter().map(|l| (*l, if write { Mode::Excl } else { Mode::Shared })).collect();
 	want.sort_by_key(|h| h.0);
+	// "each exactly once": a leaf the caller holds twice (a shared lock taken twice through a collection that reaches it
+	// by two routes) is not what the caller asked for, even if the target lists it twice
+	for w2 in held.windows(2) {
+		if w2[0].0 == w2[1].0 {
+			rt::violation("C04", format!("held-twice|{}", rt::what_key(w)), format!("after `{}` the caller holds L{} more than once: {:?}", w, w2[0].0, held));
+			break;
+		}
+	}
 	// Mutex leaves are always exclusive
 	if held != want {
 		rt::violation("C04", format!("coverage|{}", rt::what_key(w)), format!("after `{}` the caller holds {:?} but the target's leaves are {:?}", w, held, want));
